@@ -493,7 +493,14 @@ struct CppWorld : World {
             ok = (ov & 1) ? C.obj->decrypt(mv, cv) : C.obj->decrypt(mv, cv, av);
             got.assign(mv.begin(), mv.end());
             ret = ok ? (int)got.size() : -1;
-            if (!ok && !got.empty()) viol(c, "failed_decrypt_empties_output", site, fmt("byte_array holds %zu bytes after a failed decrypt", got.size()));
+            // what the output array holds after a reported failure is not documented: empty, all zero, or simply left as
+            // it was are all fine; bytes that come from the rejected packet are not
+            if (!ok) {
+                bool zeros = true;
+                for (uint8_t x2 : got) if (x2) zeros = false;
+                if (!got.empty() && !zeros && got != Bytes(3, 0x55))
+                    viol(c, "failed_decrypt_releases_nothing", site, fmt("byte_array holds %zu bytes that are neither zero nor its previous content after a failed decrypt", got.size()));
+            }
         }
         if (ok) C.nonce += 1;
         if (c.record) {
